@@ -24,6 +24,7 @@ CONSTANTS Classes <- {classes}
  Acts <- {acts}
  MaxObj = {maxobj}
  Deviations <- {dev}
+ ExtraPix <- {extra}
  MaxDepth = {depth}
 {invs}
 CHECK_DEADLOCK FALSE
@@ -31,8 +32,8 @@ CHECK_DEADLOCK FALSE
 INVS = ['AllValid', 'RejectIsStutter', 'NoSharing', 'CopyEqual', 'CopyWithDiffers', 'Independent']
 
 
-def cfg(classes, acts, maxobj, depth, dev='NoDev', invs=INVS):
-    return CFG.format(classes=classes, acts=acts, maxobj=maxobj, depth=depth, dev=dev,
+def cfg(classes, acts, maxobj, depth, dev='NoDev', invs=INVS, extra='NoExtra'):
+    return CFG.format(classes=classes, acts=acts, maxobj=maxobj, depth=depth, dev=dev, extra=extra,
                       invs='\n'.join(f'INVARIANT {i}' for i in invs))
 
 
@@ -120,12 +121,10 @@ def describe(st):
 def replay_dump(ctx, res, cat, cls, pid, what, stride=1):
     n = 0
     kinds = {}
-    for i, st in enumerate(parse_dump(res.dump_path)):
+    for i, st in enumerate(parse_dump(res.dump_path, stride=stride)):
         if st['depth'] == 0:
             continue
         kinds[st['act']['a']] = kinds.get(st['act']['a'], 0) + 1
-        if stride > 1 and i % stride:
-            continue
         ok = replay_state(ctx, cat, cls, st, pid)
         n += 1
         a = st['act']
@@ -202,8 +201,8 @@ def simulate(ctx, cfg_text, cat, cls, pid, num, depth, seed):
 def run(ctx):
     quick = ctx.tier == 'quick'
     cat, cls = objs.catalogue(), objs.classes()
-    run_model(ctx, 'params_all_classes', cfg('ClsQuick' if quick else 'ClsAll', 'ActsParams', 1, 2), cat, cls, 'C17', stride=2 if quick else 1)
-    run_model(ctx, 'meta_ops', cfg('ClsPoint', 'ActsMeta', 1, 3 if quick else 4), cat, cls, 'C17')
+    run_model(ctx, 'params_all_classes', cfg('ClsQuick' if quick else 'ClsAll', 'ActsParams', 1, 2), cat, cls, 'C17', stride=9 if quick else 1)
+    run_model(ctx, 'meta_ops', cfg('ClsPoint', 'ActsMeta', 1, 3 if quick else 4), cat, cls, 'C17', stride=3 if quick else 1)
     simulate(ctx, cfg('ClsFew', 'ActsAll', 1, 20), cat, cls, 'C17', 150 if quick else 3000, 21, ctx.seed + 17)
     from . import lists
     lists.run(ctx, 'C17')
